@@ -654,6 +654,11 @@ func classify(c Case) (bool, []string) {
 			break
 		}
 	}
+	for _, r := range c.Rels {
+		if r.ID == 50 {
+			cl = append(cl, "chained-route")
+		}
+	}
 	seen := map[string]bool{}
 	var out []string
 	for _, s := range cl {
@@ -722,6 +727,47 @@ func genCase(t *rapid.T) Case {
 		}
 		c.Ways = append(c.Ways, way)
 	}
+	// a chained route: a path over the node pool cut into consecutive ways that share
+	// end nodes, pieces independently reversed and tagged, members shuffled - joining
+	// has to flip pieces, and tagged pieces are also features of their own
+	chained := rapid.IntRange(0, 2).Draw(t, "chainedRoute") == 0 && nn >= 4
+	if chained {
+		path := rapid.Permutation(func() []int {
+			ids := make([]int, nn)
+			for i := range ids {
+				ids[i] = i + 1
+			}
+			return ids
+		}()).Draw(t, "path")
+		np := rapid.IntRange(2, 4).Draw(t, "npieces")
+		if np > len(path)-1 {
+			np = len(path) - 1
+		}
+		rel := R{ID: 50, Tags: []T{{"type", "route"}, {"route", "bus"}}, Meta: genMeta(t)}
+		at := 0
+		for p := 0; p < np; p++ {
+			end := at + 1
+			if p == np-1 {
+				end = len(path) - 1
+			} else if room := len(path) - 1 - at - (np - 1 - p); room > 1 {
+				end = at + rapid.IntRange(1, room).Draw(t, "plen")
+			}
+			way := W{ID: int64(60 + p), Tags: rapid.SampledFrom(wayTagSets[:4]).Draw(t, "ctags"), Annotated: rapid.IntRange(0, 3).Draw(t, "cann") == 0, Meta: genMeta(t)}
+			for i := at; i <= end; i++ {
+				way.Refs = append(way.Refs, int64(path[i]))
+			}
+			if rapid.Bool().Draw(t, "crev") {
+				for i, j := 0, len(way.Refs)-1; i < j; i, j = i+1, j-1 {
+					way.Refs[i], way.Refs[j] = way.Refs[j], way.Refs[i]
+				}
+			}
+			c.Ways = append(c.Ways, way)
+			rel.Members = append(rel.Members, M{"way", way.ID, ""})
+			at = end
+		}
+		rel.Members = rapid.Permutation(rel.Members).Draw(t, "corder")
+		c.Rels = append(c.Rels, rel)
+	}
 	nr := rapid.IntRange(0, 3).Draw(t, "nr")
 	for r := 1; r <= nr; r++ {
 		ty := rapid.SampledFrom([]string{"route", "route", "multipolygon", "boundary", "restriction", "site", ""}).Draw(t, "rtype")
@@ -775,7 +821,7 @@ func genCase(t *rapid.T) Case {
 func TestConvert(t *testing.T) {
 	harness.Run(t, harness.Spec[Case]{
 		Name: "convert", N: 4000,
-		Rule:     "OSM data sets over a pool of up to 14 located nodes (present or missing; no / only-uninteresting / interesting tags), unlocated nodes, 0..5 ways (open, closed simple rings, area-tagged, short, through missing nodes, coordinates on way nodes or via node objects, shared nodes), 0..3 relations (route, multipolygon, boundary, restriction, site, untyped; way/node/relation members, present or absent), every metadata field independently present; each case converted under all 16 option combinations; oracle = the statement's rules evaluated on the model (unique feature ids naming input elements, node interest rule, way line/area geometry from resolvable coordinates, route segment multiset, type/id/tags/meta/relations properties) + metamorphic option relations against the default conversion + determinism + input immutability; non-trivial = a way runs through an interestingly tagged node, or the data set has a relation",
+		Rule:     "OSM data sets over a pool of up to 14 located nodes (present or missing; no / only-uninteresting / interesting tags), unlocated nodes, 0..5 ways (open, closed simple rings, area-tagged, short, through missing nodes, coordinates on way nodes or via node objects, shared nodes), 0..3 relations (route, multipolygon, boundary, restriction, site, untyped; way/node/relation members, present or absent), in a third of the cases a chained route (a node path cut into consecutive member ways, pieces reversed and tagged at random, members shuffled), every metadata field independently present; each case converted under all 16 option combinations; oracle = the statement's rules evaluated on the model (unique feature ids naming input elements, node interest rule, way line/area geometry from resolvable coordinates, route segment multiset, type/id/tags/meta/relations properties) + metamorphic option relations against the default conversion + determinism + input immutability; non-trivial = a way runs through an interestingly tagged node, or the data set has a relation",
 		Gen:      genCase,
 		Check:    check,
 		Classify: classify,
